@@ -85,3 +85,15 @@ func (app *App) VerifClearJobs() {
 		_ = js.DeleteJob(j)
 	}
 }
+
+// VerifClosed reports whether the application has shut itself down (handlePanic closes
+// the chain-state database after recovering a panic in an ABCI call).
+func (app *App) VerifClosed() (closed bool) {
+	defer func() {
+		if r := recover(); r != nil {
+			closed = true
+		}
+	}()
+	_, err := app.Context.db.Get([]byte("verif-probe"))
+	return err != nil
+}
